@@ -5,6 +5,7 @@ package main
 // replay test.
 
 import (
+	"strings"
 	"fmt"
 	"go/token"
 	"go/types"
@@ -107,6 +108,10 @@ func init() {
 				i.st.concreteAsserts++
 				if !c {
 					i.reportViolation("assert", msg, nil)
+					if i.foreignAssertion(msg) {
+						// owned by another property's check: recorded there; this check goes on to its own assertions
+						return nil
+					}
 					panic(pathAbort{"stop", "assertion failed: " + msg})
 				}
 				i.st.discharged++
@@ -293,4 +298,19 @@ func (i *interpreter) freeze(p *value, name string) {
 func (i *interpreter) frozenWrite(name string) {
 	i.st.obligations++
 	i.reportViolation("frozen-write", "store into frozen object "+name, nil)
+}
+
+
+// foreignAssertion reports whether an assertion belongs to another property
+// than the one being checked (gosymx check Cnn): tagged "[Cxx] ..." or, when
+// untagged, owned by the harness's VX_Cxx_ prefix.
+func (i *interpreter) foreignAssertion(msg string) bool {
+	if i.ownerFilter == "" {
+		return false
+	}
+	own := ownerOf(msg)
+	if own == "" && strings.HasPrefix(i.job.harness, "VX_C") && len(i.job.harness) >= 6 {
+		own = i.job.harness[3:6]
+	}
+	return own != "" && own != i.ownerFilter
 }
